@@ -47,6 +47,25 @@ def domains(rng, n):
     return out
 
 
+def long_domains(rng):
+    """Names near the limits of the DNS: 253 octets of 63-octet ASCII labels, a single 63-octet label under a short suffix, and IDNs whose A-label form
+    is a legal name while their UTF-8 form is far longer than 255 octets (repeated characters compress well in punycode)."""
+    out = []
+    l63 = lambda: "".join(rng.choice("abcdefghijklmnopqrstuvwxyz0123456789") for _ in range(63))
+    a = ".".join([l63(), l63(), l63(), l63()[:61]])
+    assert len(a) == 253
+    out.append((a, a))
+    b = l63() + ".example.org"
+    out.append((b, b.upper()))
+    for ch, k, nl in (("日", 25, 6), ("ü", 40, 4), ("я", 30, 5)):
+        u = [ch * (k - j) for j in range(nl)]
+        al = ["xn--" + x.encode("punycode").decode() for x in u]
+        canon = ".".join(al + ["example"])
+        assert len(canon) <= 253 and all(len(x) <= 63 for x in al) and len(".".join(u).encode()) > (255 if ch != "ü" else 200)
+        out.append((canon, ".".join(u + ["example"])))
+    return out
+
+
 def run_case(args):
     idx, case, root = args
     digest = hashlib.sha256(("c16-%d-%s" % (idx, case["seed"])).encode()).digest()
@@ -96,6 +115,11 @@ def run(ctx):
     for i, (canon, shown) in enumerate(doms):
         cases.append({"canon": canon, "shown": shown, "listener": "tcp" if i % 2 else "unix", "source": ["stdin", "flag", "file"][i % 3],
                       "offers": [[tacdlib.ACME], ["h2"]], "seed": 1000 + i})
+    # long names through every source (a value file may also end in blank lines)
+    for i, (canon, shown) in enumerate(long_domains(rng)):
+        for j, source in enumerate(("flag", "file", "stdin")):
+            cases.append({"canon": canon, "shown": shown, "listener": "tcp" if (i + j) % 2 else "unix", "source": source, "offers": [[tacdlib.ACME], ["h2"]], "seed": 2000 + 3 * i + j,
+                          "long": True})
     root = fresh_dir("C16", "runs")
     lines, owner = [], []
     with cf.ThreadPoolExecutor(max_workers=10) as ex:
@@ -125,7 +149,7 @@ def run(ctx):
            "exhaustive": False,
            "rule": "TLC enumerates every ALPN list over {acme-tls/1, h2, http/1.1, acme-tls/10, acme-tls/ (thorough: + acme-tls/1.1, ACME-TLS/1)} up to length 3 plus 'no extension' and checks the case split of the acceptor's callback; "
                    "each shape is offered to real tacd instances (tcp and unix listeners; domain/extension by flag, file and standard input); key types x digests; "
-                   "random domains of 1..5 labels (ASCII, IDN given as U-label/A-label, mixed case) whose canonical A-label form is known by construction; random digests "
+                   "random domains of 1..5 labels (ASCII, IDN given as U-label/A-label, mixed case) whose canonical A-label form is known by construction; names at the limits of the DNS (253 octets, 63-octet labels, IDNs of 300-450 UTF-8 octets) by flag, file and standard input; random digests "
                    "rendered in acmed's proof text; the negotiated protocol and the DER of the presented certificate are parsed by the harness and judged by Tacd.tla"}
     return {"coverage": cov, "assumptions": ["TLS and DER parsing (Python ssl, OpenSSL through vcrypto, a small DER walker for extensions) is trusted projection code",
                                             "a client that sends no ALPN extension is outside the two clauses of the property (OpenSSL completes such handshakes)"]}
